@@ -95,6 +95,47 @@ pub fn gen(out: &mut dyn Write, seed: u64, thorough: bool) {
             }
         }
     }
+    // 4. bitmaps larger than the largest symbol (the documented precondition is only that width + 1 and
+    // height + 1 fit an i16): big squares, long strips, a symbol scaled by two
+    {
+        let mut big: Vec<(Vec<bool>, usize)> = vec![];
+        big.push((vec![true; 181 * 181], 181));
+        let mut b: Vec<bool> = (0..200 * 200).map(|_| rng.below(10) < 4).collect();
+        b[0] = true;
+        big.push((b, 200));
+        let mut b: Vec<bool> = (0..8 * 4200).map(|_| rng.below(10) < 5).collect();
+        b[0] = true;
+        big.push((b.clone(), 4200));
+        big.push((b, 8));
+        if !thorough {
+            // (the scaled symbol only in the thorough tier: 82 944 cells)
+        } else if let Ok(dm) = DataMatrix::encode(b"0123456789", sizes[23]) {
+            let bm = dm.bitmap();
+            let (w, h) = (bm.width(), bm.height());
+            let mut sc = vec![false; 4 * w * h];
+            for i in 0..2 * h {
+                for j in 0..2 * w {
+                    sc[i * 2 * w + j] = bm.bits()[(i / 2) * w + j / 2];
+                }
+            }
+            big.push((sc, 2 * w));
+        }
+        if thorough {
+            for _ in 0..20 {
+                let w = 150 + rng.below(200);
+                let h = 150 + rng.below(200);
+                let dens = 1 + rng.below(9);
+                let mut b: Vec<bool> = (0..w * h).map(|_| rng.below(10) < dens).collect();
+                b[0] = true;
+                big.push((b, w));
+            }
+        }
+        let n_big = big.len();
+        for (b, w) in big {
+            emit(out, &b, w, false);
+        }
+        writeln!(out, "# bitmaps_beyond_144x144 {}", n_big).unwrap();
+    }
     let _ = SymbolList::default();
     writeln!(out, "# exhaustive_bitmaps {}", n_ex).unwrap();
     writeln!(out, "# exhaustive_up_to_cells {}", cells).unwrap();
